@@ -456,7 +456,11 @@ func c03Scenario(name string) func() explore.SchedOutcome {
 		}
 		base := c03Baseline(wd, sentinel)
 		var hostiles []*vnet.Conn
-		switch name {
+		kind, flood := name, c03Flood
+		if name == "SC6s" { // the same scenario with fewer pending replies, explored one deviation deeper
+			kind, flood = "SC6", 30
+		}
+		switch kind {
 		case "SC1": // account changes by an administrator while a connection is between registration and authentication
 			adm, _ := wd.Connect("10.0.0.9:1009", "admin", "secret", "adm")
 			base = c03Baseline(wd, sentinel)
@@ -510,7 +514,7 @@ func c03Scenario(name string) func() explore.SchedOutcome {
 			hostiles = append(hostiles, h.Conn)
 			h.Conn.Stalled = true
 			base = ""
-			for i := 0; i < c03Flood; i++ {
+			for i := 0; i < flood; i++ {
 				h.Send(ref.Tx{Type: ref.TGetUserNameList})
 			}
 		case "SC5": // a client that disconnects while a broadcast to it is in flight
@@ -527,7 +531,7 @@ func c03Scenario(name string) func() explore.SchedOutcome {
 		if sentinel.Reply(sid) == nil {
 			fail("sentinel-not-answered", fmt.Sprintf("blocked: %v", vrt.Blocked()))
 		}
-		if name == "SC4" || name == "SC6" {
+		if kind == "SC4" || kind == "SC6" {
 			// the deaf client holds senders to itself blocked; everybody else must still be served
 			id := sentinel.Req(ref.TGetUserNameList)
 			vrt.Settle(20 * time.Second)
@@ -563,7 +567,7 @@ func c03Scenario(name string) func() explore.SchedOutcome {
 	}
 }
 
-var c03Scenarios = []string{"SC1", "SC2", "SC3", "SC4", "SC5", "SC6"}
+var c03Scenarios = []string{"SC1", "SC2", "SC3", "SC4", "SC5", "SC6", "SC6s"}
 
 // c03Flood is the number of requests the deaf client of SC6 sends (each leaves one reply pending for it).
 var c03Flood = 300
@@ -593,19 +597,7 @@ func runC03(w *explore.Worker) {
 	if p := os.Getenv("VERIF_WORKER_OUT"); p != "" {
 		c03Watchdog(w, p)
 	}
-	bound := 1
-	if w.Thorough {
-		bound = 2
-	}
-	for _, sc := range c03Scenarios {
-		c03Current = "" // the watchdog guards single mutation cases; schedule exploration is bounded by the step horizon
-		b := bound
-		if sc == "SC6" {
-			b-- // executions of SC6 are two orders of magnitude longer: one deviation less
-		}
-		explore.ExploreSchedules(w, explore.SchedConfig{Harness: "C03" + sc, Bound: b, FreeCost: 1, MaxSteps: 50000, Suspend: true}, c03Scenario(sc))
-	}
-	w.Max("scenario_deviation_bound_completed", bound)
+	// the mutation corpus first: the scenario exploration below gets whatever budget is left
 	cs := c03Cases(w.Thorough)
 	for i, c := range cs {
 		if !w.Next() {
@@ -623,6 +615,22 @@ func runC03(w *explore.Worker) {
 			w.Sample(map[string]interface{}{"port": c.Port, "state": c.State, "kind": c.Kind, "mutation": c.Mut, "bytes_sent": len(c.Bytes)})
 		}
 	}
+	bound := 1
+	if w.Thorough {
+		bound = 2
+	}
+	for _, sc := range c03Scenarios {
+		c03Current = "" // the watchdog guards single mutation cases; schedule exploration is bounded by the step horizon
+		b := bound
+		switch sc {
+		case "SC6":
+			b = 0 // 300 pending replies: thousands of steps per execution, default schedule and hold-backs only
+		case "SC6s":
+			b = bound - 1
+		}
+		explore.ExploreSchedules(w, explore.SchedConfig{Harness: "C03" + sc, Bound: b, FreeCost: 1, MaxSteps: 50000, Suspend: true}, c03Scenario(sc))
+	}
+	w.Max("scenario_deviation_bound_completed", bound)
 	c03Current = ""
 	if w.Index == 0 {
 		w.Count("mutants", len(cs))
